@@ -1532,6 +1532,9 @@ class Interp:
                 fr.storev(dst, a)
             elif rv['kind'].startswith('PointerCoercion'):
                 fr.storev(dst, a)
+            elif rv['kind'] in ('Transmute', 'PtrToPtr') and isinstance(a, Ref) and isinstance(a.root, tuple) and a.root and a.root[0] == 'box':
+                # the pointer of a modelled Box allocation stays that pointer through pointer casts (`vec![a, b, c]`)
+                fr.storev(dst, a)
             else:
                 fr.storev(dst, TOP)
         elif k == 'discr':
